@@ -91,7 +91,8 @@ Definition spec_ok (c : case) : bool :=
   match (if Nat.leb 100 (c_prim c) then c_prim c - 100 else c_prim c) with
   | 0 => sf_accepts (c_hist c) && complete (c_hist c)
   | 1 => lc_accepts (c_hist c) && complete (c_hist c)
-  | 2 => linearizable (LIM.sstep (c_n c)) LIM.init (c_hist c)
+  | 2 => if Nat.eqb (c_n c) 0 then linearizable_pending (LIM.sstep 0) LIM.init (c_hist c)   (* Borrow blocks for ever *)
+         else linearizable (LIM.sstep (c_n c)) LIM.init (c_hist c)
   | 3 => linearizable REF.sstep REF.init (c_hist c)
   | 4 => linearizable ONCE.sstep ONCE.init (c_hist c)
   | 5 => linearizable SPIN.sstep SPIN.init (c_hist c)
